@@ -69,7 +69,7 @@ MCView == <<uni, cfg, stable, tree, ing, next, sync>>
 (* Properties.                                                             *)
 (***************************************************************************)
 \* C02: the mechanism (bottom-up, first child wins ties) serves the declarative best chain
-BestChainIsHeaviest == BestChainOf(tree) = BestDecl(tree)
+BestChainIsHeaviest == BestChainOf(tree) = BestDecl(tree) /\ BestChainRec(tree) = BestDecl(tree)
 
 \* C03: on mainnet the mechanism decides exactly the rule as worded in the property
 CurBound == Bound(St)
@@ -124,6 +124,10 @@ ChainLinked ==
 \* C14 / C20: announced headers never name a block of the tree nor a height at or below the anchor's
 NextHeadersClean ==
   \A p \in next : p[1] \notin InTree(tree) /\ p[2] > Len(stable) /\ p[2] = Height(p[1])
+
+\* the one-pass maps used by trace validation agree with the recursive definitions
+FastAgree == FastMapsAgree(tree) /\ \A c \in 0..(Len(tree.arr) + 1) :
+               CutLen(tree, BestChainOf(tree), c) = CutLenRef(tree, BestChainOf(tree), c)
 
 \* C10: the tree holds exactly connected, distinct blocks (admission is by construction; this
 \* checks that no action breaks the shape)
